@@ -533,6 +533,8 @@ class Parser:
             return self.trigger_error('Already defined: "{}"'.format(name))
         value = self._current_literal()
         if value is None:
+            if not self._current_token.is_a(TokenTypes.NAME):
+                return self.token_error('Macro needs constant, got "{}"')
             inner_macro = self._context.get_macro(str(self._current_token))
             if inner_macro.undefined:
                 return self.token_error('Macro needs constant, got "{}"')
